@@ -181,6 +181,11 @@ class HypPart(Part):
     def strategy(self, tier):
         raise NotImplementedError
 
+    def expand(self, drawn):
+        """One drawn value may be decoded into several plain-data cases (amortises
+        Hypothesis' per-example overhead for cheap oracles)."""
+        return (drawn,)
+
     def run(self, tier, k, n, seed, acc):
         import hypothesis
         from hypothesis import HealthCheck, Phase, given, settings
@@ -189,14 +194,19 @@ class HypPart(Part):
         if mine <= 0:
             return
         part = self
+        # Hypothesis' GC timing callback raises (harmlessly, but noisily) when the code under
+        # test has exhausted the recursion limit; it is not needed here
+        import gc
+        gc.callbacks[:] = [cb for cb in gc.callbacks if 'gc_cumulative_time' not in getattr(cb, '__qualname__', '')]
 
         @hypothesis.seed(seed * 64 + k + (case_hash(self.name) % 1000) * 4096)
         @settings(max_examples=mine, database=None, deadline=None, derandomize=False,
                   phases=[Phase.generate], report_multiple_bugs=False,
                   suppress_health_check=list(HealthCheck))
         @given(self.strategy(tier))
-        def body(case):
-            acc.observe(part, case, part.check(case))
+        def body(drawn):
+            for case in part.expand(drawn):
+                acc.observe(part, case, part.check(case))
 
         body()
 
@@ -413,7 +423,17 @@ def run_check(prop_id, tier, seed):
                 if len(m['samples']) < 8:
                     m['samples'].extend(res['samples'][:8 - len(m['samples'])])
         except concurrent.futures.process.BrokenProcessPool as e:
-            harness_errors.append('worker pool broke: %r' % (e,))
+            # a worker that detects an uninterruptible hang saves the case and exits (see C01)
+            import glob
+            hangs = glob.glob(os.path.join(REPLAY_DIR, '%s-hang-*.json' % prop_id))
+            for hp in hangs:
+                with open(hp) as f:
+                    payload = json.load(f)
+                os.unlink(hp)
+                path = write_replay(prop_id, payload['part'], payload['case'], payload['failure'], seed, tier, False)
+                violations.append((payload['part'], payload['failure']['sig'], path, 'worker hung on this case'))
+            if not hangs:
+                harness_errors.append('worker pool broke: %r' % (e,))
 
         # 3. shrink and record new failures
         shrink_tasks = []
